@@ -308,6 +308,45 @@ def clear_agree(ctx, rr):
         if tr:
             rr.fail(ctx.finding('R-CLEAR-AGREE', u, u.node, 'clear() tests its argument `%s` for truthiness: an empty rule (b"" / {}) given to clear() is ignored and the old rules '
                                 'survive the clear' % prm, stmt='clear %s none-ness' % prm))
+    # ... and each optional argument is looked at on every path that completes, whatever the other one says; when it is given it is
+    # installed (the attribute is bound again)
+    for prm, attr in (('default_webentity_creation_rule', 'self.default_webentity_creation_rule'), ('webentity_creation_rules', 'self.webentity_creation_rules')):
+        if prm not in u.call_params:
+            continue
+        badp = None
+        for r in rows:
+            if r.outcome not in ('return', 'fall') or any(e.kind == 'raise' for e in r.events):
+                continue
+            keys = [k for k in r.val if k.split(':', 1)[-1] == prm]
+            if not keys:
+                badp = (r, 'is not looked at on a path that completes (%s)' % ', '.join('%s=%s' % kv for kv in list(r.val.items())[:3]))
+                break
+            given = any((k.startswith('isnone:') and r.val[k] is False) or (k.startswith('truthy:') and r.val[k] is True) for k in keys)
+            if given and not any(e.kind == 'store' and e.name == attr for e in r.events):
+                badp = (r, 'is given but `%s` is not bound again' % attr)
+                break
+        rr.ob(ctx.where(u), 'clear(%s=...) is honoured on every completing path, independently of the other arguments' % prm, ok=badp is None)
+        if badp is not None:
+            rr.fail(ctx.finding('R-CLEAR-AGREE', u, u.node, 'clear(): argument `%s` %s: the cleared index keeps the old rules and differs from a fresh index given the same arguments'
+                                % (prm, badp[1]), detail={'row': badp[0].show()[:400]}, stmt='clear honours %s' % prm))
+    # each reopened file is plugged into the storage __init__ built on it (the trie storage gets the trie file)
+    pair_init = {}
+    for a in P.own(init, ast.Assign):
+        if len(a.targets) == 1 and self_attr_name(a.targets[0]) and isinstance(a.value, ast.Call) and any(t.cls == 'FileStorage' for t in P.targets(a.value)):
+            for x in list(a.value.args) + [k.value for k in a.value.keywords]:
+                if self_attr_name(x):
+                    pair_init[self_attr_name(a.targets[0])] = self_attr_name(x)
+    npair = 0
+    for a in P.own(u, ast.Assign):
+        t = a.targets[0] if len(a.targets) == 1 else None
+        if isinstance(t, ast.Attribute) and t.attr == 'file' and self_attr_name(t.value) and self_attr_name(a.value):
+            npair += 1
+            st_, fl_ = self_attr_name(t.value), self_attr_name(a.value)
+            okp = pair_init.get(st_) == fl_ or st_ not in pair_init
+            rr.ob(ctx.where(u, a), 'clear(): self.%s gets the file __init__ built it on (self.%s)' % (st_, pair_init.get(st_)), ok=okp)
+            if not okp:
+                rr.fail(ctx.finding('R-CLEAR-AGREE', u, a, 'clear() plugs self.%s into self.%s, which __init__ built on self.%s: after a clear the trie is written into the link store file '
+                                    'and vice versa, so the folder cannot be reopened' % (fl_, st_, pair_init.get(st_))))
     mc = P.classes['MemoryStorage'].get('clear')
     if mc is None:
         raise AnalysisError('anchor vanished: MemoryStorage.clear')
@@ -703,6 +742,11 @@ def ancestor_flag(ctx, rr):
                     i = first_idx(r, lambda e: e is f)
                     if not any(e.kind == 'call' and e.name == 'write' and e.var == f.var for e in r.events[i:]):
                         bad.append((r, f, 'the unmarked ancestor is not written back'))
+                    # the mark that is tested is the mark of the node that gets unmarked: the variable is not re-bound in between
+                    tests_ = [k_ for k_, e in enumerate(r.events[:i]) if e.kind == 'call' and e.name == 'can_have_child_webentities' and e.var == f.var]
+                    if tests_ and any(e.kind == 'set' and e.name == f.var for e in r.events[tests_[-1]:i]):
+                        bad.append((r, f, 'the mark is tested on the node of the previous level (`%s` is re-bound between the test and the unmarking): the matched ancestor keeps its '
+                                    'mark whenever the first node of its sibling group is already unmarked' % f.var))
                     j = first_idx(r, lambda e: e.kind == 'call' and e.name == 'read_child')
                     wj = first_idx(r, lambda e: e.kind == 'call' and e.name == 'write' and e.var == f.var and first_idx(r, lambda x: x is e) > i)
                     if j is not None and wj is not None and j < wj:
